@@ -8,6 +8,7 @@ the derived context exactly for scoped blocks, the required check precedes the c
 and blocks at top level are suppressed after a known extends and guarded by
 ``parent_template is None`` after a possible one; with extends the root function ends by
 delegating to ``parent_template.root_render_func(context)`` with the same context.
+Also: who-may-write Frame.require_output_check; the extended-loop predicate searches scoped blocks in the whole subtree.  
 Not decided: the rendered text of a hierarchy.
 """
 
